@@ -190,7 +190,11 @@ class C10(Prop):
                 break
             if len(sim.axes) > 5:
                 break
-        return {"op": "chain", "array": arr, "steps": steps}
+        c = {"op": "chain", "array": arr, "steps": steps}
+        if not any(st.get("_err") for st in steps):
+            # what was requested, tracked independently of the library and of the model: dims and labels per dimension
+            c["_expect"] = {"dims": list(sim.dims), "labels": [list(a["labels"]) for a in sim.axes]}
+        return c
 
     def gen_roundtrip(self, rng):
         rank = rng.choice([2, 3, 4])
@@ -304,11 +308,17 @@ class C10(Prop):
                 prop_bad += check_coordinates(io["input"], io["ok"])
                 if io["ok"]["attrs"] != io["input"]["attrs"]:
                     prop_bad.append("attrs")
+                if c.get("_expect"):
+                    # the result's dims are the requested permutation / insertion / removal, every axis with its labels
+                    if io["ok"]["dims"] != c["_expect"]["dims"]:
+                        prop_bad.append("dims:not_as_requested")
+                    elif [[lab_key(l) for l in x["labels"]] for x in io["ok"]["axes"]] != [[lab_key(l) for l in ls] for ls in c["_expect"]["labels"]]:
+                        prop_bad.append("axes.labels:not_as_requested")
                 if c.get("roundtrip"):
                     for k in ("dims", "shape", "values", "axes"):
                         if io["ok"][k] != io["input"][k]:
                             prop_bad.append("roundtrip." + k)
-            elif "ok" in lean:
+            elif "ok" in lean or c.get("_expect"):
                 prop_bad.append("outcome:" + io["err"])
         if io.get("operand_modified"):
             prop_bad.append("operand_modified")
